@@ -15,6 +15,10 @@ NA = {
  "C19": "strategy applicability is a pure function of the basis",
 }
 CHECKS = {
+ "C01": dict(engine="histsim", category="exploration", design_ref="DESIGN.md section 3 / C01",
+   text="Seeded search over search histories on shared pattern objects: occurrence generators are live tasks advanced in seeded interleavings (several generators of one pattern object on different targets at once), mixed with contains / avoids / avoids_set / in / counts / contained_in / avoided_by, with the per-object search-table memo flushed, pre-warmed, copied and pickled; every listing, prefix, boolean and count is compared with the definition (all index combinations filtered by order-isomorphism). In addition the whole bounded input domain (patterns <= 4 x targets <= 6 in quick, <= 5 x <= 7 in thorough) is enumerated completely, each pattern object reused for all targets. Histories are sampled, not proved.",
+   note="Trusted: ref/patterns.py (combinations + order-isomorphism, pinned by hand-checked listings). Lengths bounded as stated.",
+   technique="deterministic cooperative simulation of search histories with interleaved live generators and memo faults, seeded search plus complete enumeration of the bounded input domain, by-definition oracle"),
  "C02": dict(engine="histsim", category="exploration", design_ref="DESIGN.md section 3 / C02",
    text="Seeded search over query histories: a pool of 1-3 classes (classical and mesh bases) is driven through 5-30 operations - counts, enumerations, membership, subclass tests, creation and partial consumption of of_length / up_to_length / first iterators, clear_cache, re-creation from an equal basis in another form, other classes, dropped references and gc - and every response and every iterator prefix is compared with brute-force avoider sets. Sampling of histories, not proof; ten history/compaction/cache mutants are found within the quick budget, three behaviour-preserving refactors stay silent; three genuine defects of the pinned tree are listed as known findings.",
    note="Trusted: ref/classes.py (naive filter for mesh bases, max-insertion generation cross-checked against it for classical ones, pinned by Catalan / 2^(n-1) / C(n,2)+1 / Baxter). Lengths <= 6-7 (classical) and <= 5-6 (mesh). Order within a level and object identity are not part of the property and are not gated.",
